@@ -5,6 +5,7 @@
   with the real output by corr-gen, the behaviour by corr-sem with an instrumented context.
 -/
 import Gvlean.Proofs.Ctx
+import Gvlean.Proofs.CtxAny
 
 namespace Props
 open Go Gen Proofs
@@ -42,5 +43,44 @@ example : Monotone (fun j => if j ≥ 1 then some CtxErr.canceled else none) := 
   · simp [hj] at h; subst h; have : i ≥ 1 := by omega
     simp [this]
   · simp [hj] at h
+
+/-- the modelled validator IS the skeleton with the modelled block bodies -/
+theorem c15_skeleton (bs : List Block) (ctx : Ctx) (v : Val) :
+    exec bs ctx (some v) = runG (blockEv v) ctx bs 0 [] := by
+  simp only [exec]; exact runBlocks_eq_runG ctx v bs 0 []
+
+/-- C15 for ARBITRARY block bodies (rule checks, CEL conditions, helper calls — `ev` is any function of the receiver,
+    `none` = panic): observed done at the j-th poll ⇒ exactly that error, whatever was accumulated and whatever the
+    blocks from j on would have done; in particular never nil and never a report. -/
+theorem c15_any_checks_cancelled {β : Type} (ev : β → Option (List Gen.Entry)) (bs : List β) (ctx : Ctx) (e : CtxErr) (j : Nat)
+    (hmono : Monotone ctx) (hj : j < bs.length) (hbefore : ∀ i, i < j → ctx i = none) (hat : ctx j = some e)
+    (hpre : ∀ b ∈ bs.take j, (ev b).isSome = true) :
+    runG ev ctx bs 0 [] = .ctxErr e :=
+  runG_cancelled ev ctx e hmono bs 0 j [] hj (by simpa using hbefore) (by simpa using hat) hpre
+
+/-- already done: the error at once — two `Err()` calls, no block body runs -/
+theorem c15_any_checks_already_done {β : Type} (ev : β → Option (List Gen.Entry)) (b : β) (bs : List β) (ctx : Ctx) (e : CtxErr)
+    (hmono : Monotone ctx) (h0 : ctx 0 = some e) :
+    runG ev ctx (b :: bs) 0 [] = .ctxErr e ∧ pollsG ev ctx (b :: bs) 0 = 2 :=
+  runG_already_done ev ctx e hmono b bs [] h0
+
+/-- no cancellation observed: identical to the Background run, with one cancellation point per block -/
+theorem c15_any_checks_undisturbed {β : Type} (ev : β → Option (List Gen.Entry)) (bs : List β) (ctx : Ctx)
+    (h : ∀ j, j < bs.length → ctx j = none) :
+    runG ev ctx bs 0 [] = runG ev bg bs 0 [] ∧
+    ((∀ b ∈ bs, (ev b).isSome = true) → pollsG ev ctx bs 0 = bs.length) :=
+  ⟨runG_undisturbed ev ctx bs 0 [] (by simpa using h), fun hev => pollsG_undisturbed ev ctx bs 0 (by simpa using h) hev⟩
+
+/-- "never a partial report": whenever a report comes back, no poll of that run had observed the context done -/
+theorem c15_report_only_undisturbed {β : Type} (ev : β → Option (List Gen.Entry)) (bs : List β) (ctx : Ctx) (es : List Gen.Entry)
+    (hmono : Monotone ctx) (h : runG ev ctx bs 0 [] = .report es) : ∀ j, j < bs.length → ctx j = none := by
+  intro j hj
+  simpa using runG_report_undisturbed ev ctx hmono bs 0 [] es h j hj
+
+/-- non-vacuity: three opaque blocks, the second of which has appended an entry and the third of which would panic;
+    cancellation at poll 2 returns the error and hides both facts -/
+example : runG (β := Nat) (fun n => if n == 2 then none else some (if n == 1 then [⟨["S", "F"], "cel", "x"⟩] else []))
+    (fun k => if k ≥ 2 then some .deadline else none) [0, 1, 2] 0 [] = .ctxErr .deadline := by decide
+
 
 end Props
